@@ -39,11 +39,17 @@ def initial_state(p):
             tbl, rest = k[4:].split("[", 1)
             key, field = rest.rsplit("].", 1)
             st.setdefault((tbl, key), {}).setdefault(field, v)
+    first_write = set()
+    for e in p.events:
+        if e.kind == "link_write":
+            first_write.add((e["table"], e["node"], e["side"]))
+        elif e.kind == "link_known" and (e["table"], e["node"], e["side"]) not in first_write:
+            st.setdefault((e["table"], e["node"]), {}).setdefault(e["side"], "S")
     return st
 
 
-def canonical(key, st):
-    if key == "0":
+def canonical(key, st, roots=("0",)):
+    if key in roots:
         return True
     if st.get("value") == "S":
         return True
@@ -107,13 +113,14 @@ def run_config(ctx, rep, cfg, F):
     for where, paths, _ in progs:
         base = where.split(";")[-1]
         is_h, _v = c04.handle_of(F, base)
-        if not (where in CANONICAL_OPS or is_h):
+        if not (where in CANONICAL_OPS or is_h or where.startswith("PrefixMap::_retain[")):
             continue
         for p in paths:
             if p.result[0] != "ret":
                 continue
             init = initial_state(p)
-            if any(canonical(k, st) is False for (t, k), st in init.items()):
+            roots = ("0", "i") if where.endswith("[root]") else ("0",)
+            if any(canonical(k, st, roots) is False for (t, k), st in init.items()):
                 continue
             g = C.SlotGraph(p)
             for (t, k) in touched_nodes(p):
@@ -122,7 +129,7 @@ def run_config(ctx, rep, cfg, F):
                 st = p.final.get(t, {}).get(k)
                 if st is None:
                     continue
-                c = canonical(k, st)
+                c = canonical(k, st, roots)
                 if c is True:
                     n_canon += 1
                     rep.ok("R15.3", where, "touched nodes canonical")
